@@ -191,6 +191,7 @@ for k, v in EXTRA8.items():
     CHECKS[k]['text'] += v
 EXTRA9 = {
  'C03': " One configuration gives the per-packet limit before the size option (window 1024, jumps beyond 512 missing numbers).",
+ 'C04': " One sequence number in seven is a padding-only packet.",
  'C08': " In interceptor mode every fourth number arrives as a padding-only packet.",
  'C10': " The packetdump variants of the catalog send RTP and RTCP dumps to one writer; for classes raised by the race detector two failing replays out of five of one recorded case suffice.",
  'C12': " One received packet in 64 is padding-only.",
